@@ -1,7 +1,7 @@
 use std::hash::{Hasher, Hash};
 use std::collections::{BTreeSet};
 use std::iter::FromIterator;
-use std::ops::Add;
+use std::convert::TryFrom;
 
 use regex::Regex;
 
@@ -85,10 +85,10 @@ impl<'a, T: ColumnProvider> ExpressionExecutionEngine<'a, T> {
 
                 match (&left_value, &right_value) {
                     (Value::Timestamp(left), Value::Interval(right)) => {
-                        return Ok(Value::Timestamp(left.add(right.clone())));
+                        return left.checked_add_signed(right.clone()).map(|result| Value::Timestamp(result)).ok_or(EvaluationError::UndefinedOperation);
                     }
                     (Value::Interval(left), Value::Timestamp(right)) => {
-                        return Ok(Value::Timestamp(right.add(left.clone())));
+                        return right.checked_add_signed(left.clone()).map(|result| Value::Timestamp(result)).ok_or(EvaluationError::UndefinedOperation);
                     }
                     _ => {}
                 }
@@ -97,16 +97,12 @@ impl<'a, T: ColumnProvider> ExpressionExecutionEngine<'a, T> {
                     &right_value,
                     || Some(Value::Null),
                     |x, y| {
-                        Some(
-                            Value::Int(
-                                match operator {
-                                    ArithmeticOperator::Add => x + y,
-                                    ArithmeticOperator::Subtract => x - y,
-                                    ArithmeticOperator::Multiply => x * y,
-                                    ArithmeticOperator::Divide => x / y
-                                }
-                            )
-                        )
+                        match operator {
+                            ArithmeticOperator::Add => x.checked_add(y),
+                            ArithmeticOperator::Subtract => x.checked_sub(y),
+                            ArithmeticOperator::Multiply => x.checked_mul(y),
+                            ArithmeticOperator::Divide => x.checked_div(y)
+                        }.map(|result| Value::Int(result))
                     },
                     |x, y| {
                         Some(
@@ -133,8 +129,8 @@ impl<'a, T: ColumnProvider> ExpressionExecutionEngine<'a, T> {
                     },
                     |x, y| {
                         match operator {
-                            ArithmeticOperator::Add => { Some(Value::Interval(x + y)) }
-                            ArithmeticOperator::Subtract => { Some(Value::Interval(x - y)) }
+                            ArithmeticOperator::Add => { x.checked_add(&y).map(|result| Value::Interval(result)) }
+                            ArithmeticOperator::Subtract => { x.checked_sub(&y).map(|result| Value::Interval(result)) }
                             ArithmeticOperator::Multiply => { None }
                             ArithmeticOperator::Divide => { None }
                         }
@@ -148,7 +144,7 @@ impl<'a, T: ColumnProvider> ExpressionExecutionEngine<'a, T> {
                     || Some(Value::Null),
                     |x| {
                         match operator {
-                            UnaryArithmeticOperator::Negative => Some(-x),
+                            UnaryArithmeticOperator::Negative => x.checked_neg(),
                             UnaryArithmeticOperator::Invert => None
                         }
                     },
@@ -233,7 +229,7 @@ impl<'a, T: ColumnProvider> ExpressionExecutionEngine<'a, T> {
 
                         arg.map(
                             || Some(Value::Null),
-                            |x| Some(x.abs()),
+                            |x| x.checked_abs(),
                             |x| Some(x.abs()),
                             |_| None,
                             |_| None,
@@ -264,11 +260,7 @@ impl<'a, T: ColumnProvider> ExpressionExecutionEngine<'a, T> {
                             &arg1,
                             || Some(Value::Null),
                             |x, y| {
-                                if y >= 0 {
-                                    Some(Value::Int(x.pow(y as u32)))
-                                } else {
-                                    None
-                                }
+                                u32::try_from(y).ok().and_then(|y| x.checked_pow(y)).map(|result| Value::Int(result))
                             },
                             |x, y| Some(Value::Float(Float(x.powf(y)))),
                             |_, _| None,
@@ -405,11 +397,19 @@ impl<'a, T: ColumnProvider> ExpressionExecutionEngine<'a, T> {
                     Function::MakeTimestamp if arguments.len() == 8 => {
                         match (&executed_arguments[0], &executed_arguments[1], &executed_arguments[2], &executed_arguments[3], &executed_arguments[4], &executed_arguments[5], &executed_arguments[6]) {
                             (Value::Int(year), Value::Int(month), Value::Int(day), Value::Int(hour), Value::Int(minute), Value::Int(second), Value::Int(microsecond)) => {
-                                Ok(
-                                    create_timestamp(*year as i32, *month as u32, *day as u32, *hour as u32, *minute as u32, *second as u32, *microsecond as u32)
-                                        .map(|timestamp| Value::Timestamp(timestamp))
-                                        .unwrap_or(Value::Null)
-                                )
+                                let timestamp = || {
+                                    create_timestamp(
+                                        i32::try_from(*year).ok()?,
+                                        u32::try_from(*month).ok()?,
+                                        u32::try_from(*day).ok()?,
+                                        u32::try_from(*hour).ok()?,
+                                        u32::try_from(*minute).ok()?,
+                                        u32::try_from(*second).ok()?,
+                                        u32::try_from(*microsecond).ok()?
+                                    )
+                                };
+
+                                Ok(timestamp().map(|timestamp| Value::Timestamp(timestamp)).unwrap_or(Value::Null))
                             }
                             _ => Err(EvaluationError::UndefinedFunction(function.clone(), executed_arguments_types))
                         }
@@ -480,29 +480,32 @@ impl<'a, T: ColumnProvider> ExpressionExecutionEngine<'a, T> {
                                     }
                                     Err(NonDurationField::Year) => {
                                         let trunc_timestamp = timestamp
-                                            .with_month(1).unwrap()
-                                            .with_day(1).unwrap()
-                                            .with_hour(0).unwrap()
-                                            .with_minute(0).unwrap()
-                                            .with_second(0).unwrap()
-                                            .with_nanosecond(0).unwrap();
+                                            .with_month(1)
+                                            .and_then(|timestamp| timestamp.with_day(1))
+                                            .and_then(|timestamp| timestamp.with_hour(0))
+                                            .and_then(|timestamp| timestamp.with_minute(0))
+                                            .and_then(|timestamp| timestamp.with_second(0))
+                                            .and_then(|timestamp| timestamp.with_nanosecond(0))
+                                            .ok_or(EvaluationError::FailedToTruncate)?;
                                         Ok(Value::Timestamp(trunc_timestamp))
                                     }
                                     Err(NonDurationField::Month) => {
                                         let trunc_timestamp = timestamp
-                                            .with_day(1).unwrap()
-                                            .with_hour(0).unwrap()
-                                            .with_minute(0).unwrap()
-                                            .with_second(0).unwrap()
-                                            .with_nanosecond(0).unwrap();
+                                            .with_day(1)
+                                            .and_then(|timestamp| timestamp.with_hour(0))
+                                            .and_then(|timestamp| timestamp.with_minute(0))
+                                            .and_then(|timestamp| timestamp.with_second(0))
+                                            .and_then(|timestamp| timestamp.with_nanosecond(0))
+                                            .ok_or(EvaluationError::FailedToTruncate)?;
                                         Ok(Value::Timestamp(trunc_timestamp))
                                     }
                                     Err(NonDurationField::Day) => {
                                         let trunc_timestamp = timestamp
-                                            .with_hour(0).unwrap()
-                                            .with_minute(0).unwrap()
-                                            .with_second(0).unwrap()
-                                            .with_nanosecond(0).unwrap();
+                                            .with_hour(0)
+                                            .and_then(|timestamp| timestamp.with_minute(0))
+                                            .and_then(|timestamp| timestamp.with_second(0))
+                                            .and_then(|timestamp| timestamp.with_nanosecond(0))
+                                            .ok_or(EvaluationError::FailedToTruncate)?;
                                         Ok(Value::Timestamp(trunc_timestamp))
                                     }
                                 }
@@ -520,7 +523,10 @@ impl<'a, T: ColumnProvider> ExpressionExecutionEngine<'a, T> {
                         let index = self.evaluate(index)?;
                         match index {
                             Value::Int(value) => {
-                                Ok(values.get((value - 1) as usize).cloned().unwrap_or(Value::Null))
+                                let element = value.checked_sub(1)
+                                    .and_then(|index| usize::try_from(index).ok())
+                                    .and_then(|index| values.get(index));
+                                Ok(element.cloned().unwrap_or(Value::Null))
                             }
                             _ => {
                                 Err(EvaluationError::ExpectedArrayIndexingToBeInt(index.value_type()))
